@@ -349,6 +349,8 @@ func (x *Exec) withCtx(ctx context.Context, rec M, command bool) M {
 	a, ok := wire.RemoteAddress(ctx).(mem.Addr)
 	rec["addr"] = ok && a.ID >= 1 && a.ID <= len(x.Conns)
 	rec["tm"] = wire.TypeMap(ctx) != nil
+	rec["au"] = wire.AuthenticatedUsername(ctx)
+	rec["su"] = wire.IsSuperUser(ctx)
 	if command {
 		conn := x.connOf(ctx)
 		rec["live"] = ctx.Err() == nil
